@@ -202,6 +202,9 @@ TRes ==
                    (IF p.a.k = 0 THEN (IF r.tag = "InvalidKeySize" THEN {} ELSE {"lin"})
                     ELSE IF KeyedResOK(p, r) THEN {} ELSE {"lin"})
               ELSE IF p.op = "range" THEN (IF RangeResOK(p, Ev) THEN {} ELSE {"range"})
+              \* a flush may fail (full device, I/O error) but never because the extent a deferred
+              \* generation takes its bytes from has been retired under it: the flusher is a reader
+              ELSE IF p.op = "flush" /\ r.tag = "StaleExtent" THEN {"source"}
               ELSE {}
   /\ UNCHANGED <<kv, now, cfg, klen>>
 
@@ -250,6 +253,8 @@ SweepSafe == "expire" \notin flags
 NotHidden == "index" \notin flags
 \* C13: usage never above the limit at any sampled instant, exact at quiescence
 MemBound == flags \cap {"limit", "mem", "len"} = {}
+\* C08: the extent a not yet durable TTL-only generation reads its bytes from is never retired
+SourceKept == "source" \notin flags
 \* C19: retirement completes once no reader holds the generation
 RetireSettled == "retire" \notin flags
 \* C14: scans
